@@ -74,17 +74,19 @@ package io
 //@   arith bv
 //@   opaque pbLinkEntry pbUnixfsDirData
 //@   requires d != nil && d.node != nil
-//@   modifies d.estimatedSize, d.totalLinks, fields(d.node)
+//@   modifies d.estimatedSize, d.totalLinks, fields(d.node), elems(d.node.links)
+//@   ensures[links_kept] d.node.links == old(d.node.links)
 
 //@ func (*BasicDirectory).updateEstimatedSize
 //@   prop C17
 //@   arith bv
 //@   opaque pbLinkEntry pbUnixfsDirData
 //@   requires d != nil && d.node != nil
-//@   modifies d.estimatedSize, d.totalLinks, fields(d.node)
+//@   modifies d.estimatedSize, d.totalLinks, fields(d.node), elems(d.node.links)
 //@   ensures[block_delta] blockMode(d) && old(d.estimatedSize) - old(optEntry(name, oldLink)) + old(optEntry(name, newLink)) >= 0 ==>
 //@     | d.estimatedSize == old(d.estimatedSize) - old(optEntry(name, oldLink)) + old(optEntry(name, newLink)) && d.totalLinks == old(d.totalLinks)
 //@   ensures[disabled] !blockMode(d) && !linksMode(d) && old(d.estimatedSize) >= 0 ==> d.estimatedSize == old(d.estimatedSize) && d.totalLinks == old(d.totalLinks)
+//@   ensures[links_kept] d.node.links == old(d.node.links)
 
 // legacy link-size estimate: a function value installed at init time (see size.go)
 //@ func ext global:github.com/ipfs/boxo/ipld/unixfs/private/linksize.LinkSizeFunction
@@ -98,7 +100,7 @@ package io
 //@   requires d != nil && d.node != nil
 //@   requires[inv] estInv(d)
 //@   requires[small] estSmall(d) && namedBytes(d.node, name) <= linkBytes(d.node) && 0 <= namedBytes(d.node, name)
-//@   modifies d.estimatedSize, d.totalLinks, fields(d.node), linkBytes(d.node), namedBytes(d.node, name)
+//@   modifies d.estimatedSize, d.totalLinks, fields(d.node), elems(d.node.links), linkBytes(d.node), namedBytes(d.node, name)
 //@   ensures[inv] estInv(d)
 //@   ensures[count] err == nil && blockMode(d) ==> d.totalLinks == old(d.totalLinks) - 1
 //@   ensures[removed] err == nil ==> namedBytes(d.node, name) == 0 && linkBytes(d.node) == old(linkBytes(d.node)) - old(namedBytes(d.node, name))
@@ -106,6 +108,7 @@ package io
 //@   ensures[failed] err != nil ==> d.totalLinks == old(d.totalLinks) && d.estimatedSize == old(d.estimatedSize)
 //@   ensures[present] old(namedBytes(d.node, name)) > 0 ==> err == nil
 //@   ensures[failed_links] err != nil ==> linkBytes(d.node) == old(linkBytes(d.node))
+//@   ensures[links_array_kept_or_new] arr(d.node.links) == old(arr(d.node.links)) || fresh(arr(d.node.links))
 
 //@ func (*BasicDirectory).addLinkChild
 //@   prop C17 C15
@@ -116,12 +119,13 @@ package io
 //@   requires[inv] estInv(d)
 //@   requires[small] estSmall(d) && namedBytes(d.node, name) <= linkBytes(d.node) && 0 <= namedBytes(d.node, name)
 //@   requires[lens] len(name) < 2147483648 && 0 <= cidByteLen(link.Cid) && cidByteLen(link.Cid) < 2147483648
-//@   modifies d.estimatedSize, d.totalLinks, fields(d.node), linkBytes(d.node), namedBytes(d.node, name)
+//@   modifies d.estimatedSize, d.totalLinks, fields(d.node), elems(d.node.links), linkBytes(d.node), namedBytes(d.node, name)
 //@   ensures[inv] estInv(d)
 //@   ensures[added] err == nil ==> linkBytes(d.node) == old(linkBytes(d.node)) - old(namedBytes(d.node, name)) + old(linkEntryBytes(len(name), link.Cid, link.Size))
 //@   ensures[count_new] err == nil && blockMode(d) && old(namedBytes(d.node, name)) == 0 ==> d.totalLinks == old(d.totalLinks) + 1
 //@   ensures[count_replace] err == nil && blockMode(d) && old(namedBytes(d.node, name)) > 0 ==> d.totalLinks == old(d.totalLinks)
 //@   ensures[maxlinks] err == nil && old(namedBytes(d.node, name)) == 0 && d.maxLinks > 0 ==> old(d.totalLinks) + 1 <= d.maxLinks
+//@   ensures[links_array_kept_or_new] arr(d.node.links) == old(arr(d.node.links)) || fresh(arr(d.node.links))
 
 // ---- C16: configuration survives Basic <-> HAMT conversions; sharding rule ---------------
 // per-directory HAMT sharding threshold of whichever implementation a Directory value holds
@@ -183,7 +187,7 @@ package io
 //@   site[added_entry_size] call:HAMTDirectory.linkSizeFor#1 : arg1 == res("call:MakeLink#0", 0) && nodeToAdd != nil
 //@ func (*BasicDirectory).AddChild
 //@   assumed
-//@   modifies d.estimatedSize, d.totalLinks, fields(d.node), linkBytes(d.node), namedBytes(d.node, name)
+//@   modifies d.estimatedSize, d.totalLinks, fields(d.node), elems(d.node.links), linkBytes(d.node), namedBytes(d.node, name)
 //@ func (*HAMTDirectory).AddChild
 //@   assumed
 //@   modifies d.sizeChange, d.totalLinks
